@@ -786,17 +786,21 @@ void reb_integrator_bs_part2(struct reb_simulation* r){
     
     unsigned int nbody_length = r->N*3*2;
     // Check if particle numbers changed, if so delete and recreate ode.
+    int length_changed = 0;
     if (ri_bs->nbody_ode != NULL){ 
         if (ri_bs->nbody_ode->length != nbody_length){
             reb_ode_free(ri_bs->nbody_ode);
             ri_bs->nbody_ode = NULL;
+            length_changed = 1;
         }
     }
     if (ri_bs->nbody_ode == NULL){ 
+        // The ODE struct is not stored in a Simulationarchive. Recreating it for a restored simulation must not restart the order selection.
+        const int first_or_last_step = ri_bs->first_or_last_step;
         ri_bs->nbody_ode = reb_ode_create(r, nbody_length);
         ri_bs->nbody_ode->derivatives = nbody_derivatives;
         ri_bs->nbody_ode->needs_nbody = 0; // No need to update unless there's another ode
-        ri_bs->first_or_last_step = 1;
+        ri_bs->first_or_last_step = length_changed ? 1 : first_or_last_step;
     }
     
     for (int s=0; s < r->N_odes; s++){
